@@ -28,7 +28,6 @@ from native import NativeRun
 import mirflow as F
 
 PY = {v: sorted(glob.glob("/root/.pyenv/versions/3.%d.*/bin/python" % v)) for v in (7, 8, 9, 10, 11)}
-FAMILY = {7: "307", 8: "307", 9: "309", 10: "309", 11: "311"}
 TABLE = {"307": "308", "309": "309", "311": "311"}          # which opcode table the family writes from
 SNIPPET = r"""
 import dis, json, sys
@@ -132,20 +131,50 @@ def run(tier, seed, only=None):
         binopcode = table_numbers(s.read("crates/erg_common/opcode311.rs"), "BinOpCode")
         for f in ("emit_binop_instr", "emit_binop_instr_307", "emit_binop_instr_309", "emit_binop_instr_311"):
             rep.add_function("PyCodeGenerator::" + f, "crates/erg_compiler/codegen.rs", extract_fn(gsrc, f))
-        dispatch = extract_fn(gsrc, "emit_binop_instr") or ""
-        if not kinds or "kind" not in tfields or not binopcode or not all(numbers.values()) or \
-                not re.search(r"minor >= Some\(11\).*?_311.*?minor >= Some\(9\).*?_309.*?_307", dispatch, re.S):
-            rep.add(Obligation(key="source/shape", verdict=BROKEN, reason="TokenKind / Token / opcode tables / the version dispatch of emit_binop_instr could not be read as expected"))
+        if not kinds or "kind" not in tfields or not binopcode or not all(numbers.values()):
+            rep.add(Obligation(key="source/shape", verdict=BROKEN, reason="TokenKind / Token / opcode tables could not be read as expected"))
             return rep.finish()
-        rep.add(Obligation(dict(engine="source scan", functions=["PyCodeGenerator::emit_binop_instr"]), key="dispatch/by-version", verdict=HELD, nontrivial=False,
-                           reason="emit_binop_instr dispatches minor >= 11 to _311, minor >= 9 to _309, otherwise to _307 (read from the source)"))
         text, dt, err, rc = M.dump_mir(s, "erg_compiler", overflow_checks=True, extra_cargo=["--lib"])
         if rc != 0 or len(text) < 1000:
             log("MIR dump failed:\n" + err[-3000:])
             rep.add(Obligation(key="mir-dump", verdict=BROKEN, reason="cargo +nightly rustc -Zunpretty=mir failed"))
             return rep.finish()
         log("  MIR dump erg_compiler: %.0fs, %d MB" % (dt, len(text) >> 20))
-        fns = M.parse_mir(text, want=["::emit_binop_instr_"])
+        fns = M.parse_mir(text, want=["::emit_binop_instr"])
+        # the dispatcher, executed once per target version: which family does `emit_binop_instr` call for minor = v?
+        promoted = {}
+        for mm in re.finditer(r"^const [^\n]*::emit_binop_instr::promoted\[(\d+)\][^\n]*\{(.*?)^\}", text, re.S | re.M):
+            val = re.search(r"Option::<u8>::Some\(const (\d+)_u8\)", mm.group(2))
+            if val:
+                promoted[int(mm.group(1))] = int(val.group(1))
+        disp = [f for f in fns.values() if f.short == "emit_binop_instr"]
+        family_of = {}
+        dob = Obligation(dict(engine="mirsem (MIR -> z3 %s)" % z3.get_version_string(), solver="z3", functions=["PyCodeGenerator::emit_binop_instr"],
+                              shape="target minor version 7..11 (concrete per run)", symbolic=[], bounds={}), key="dispatch/by-version")
+        try:
+            if len(disp) != 1 or not promoted:
+                raise Unsupported("dispatcher or its promoted constants not found (%d, %r)" % (len(disp), promoted))
+            for v in sorted(ref):
+                def ge(flow, P, callee, args, v=v):
+                    mm2 = re.search(r"promoted_(\d+)_?$", str(args[1]))
+                    if not mm2 or int(mm2.group(1)) not in promoted:
+                        raise Unsupported("comparison with an unknown constant %s" % (args[1],))
+                    return S.TRUE if v >= promoted[int(mm2.group(1))] else S.FALSE
+
+                def fam_call(flow, P, callee, args):
+                    P.calls.append(("FAMILY", [callee.rsplit("_", 1)[-1]], None))
+                    return const("unit")
+                fl = S.SemFlow(fns, disp[0], [(r"^<Option<u8> as PartialOrd>::(ge)$", ge), (r"PyCodeGenerator::emit_binop_instr_\d+$", fam_call)], {"Option": ["None", "Some"]})
+                outs = fl.run("bb0", stop_at=(), pre={"_1": const("gen"), "_2": const("tok"), "_3": const("type_pair")}, pc=list(S.BASE_AXIOMS))
+                fams = {c[1][0] for Q, end in outs if end == "return" for c in Q.calls if c[0] == "FAMILY"}
+                if len(fams) != 1:
+                    raise Unsupported("dispatch for 3.%d is not a single family: %s" % (v, sorted(fams)))
+                family_of[v] = fams.pop()
+            dob.update(verdict=HELD, nontrivial=False, detail={"family per target": {"3.%d" % v: "_" + f for v, f in family_of.items()}},
+                       reason="emit_binop_instr calls exactly one table per target version (%s); each table is checked against that version's interpreter below" % ", ".join("3.%d -> _%s" % (v, f) for v, f in sorted(family_of.items())))
+        except Unsupported as e:
+            dob.update(verdict=INCONCLUSIVE, reason="unsupported-construct: " + str(e)[:200])
+        rep.add(dob)
         iviol = interpreter_selection(rep, s, text, only)
         del text
         solver = z3.Solver()
@@ -196,7 +225,7 @@ def run(tier, seed, only=None):
                 rep.add(Obligation(key="mir/emit_binop_instr_" + fam, verdict=INCONCLUSIVE, reason="unsupported-construct: " + str(e)[:200]))
         to_replay = []
         for v in sorted(ref):
-            fam = FAMILY[v]
+            fam = family_of.get(v)
             if fam not in fam_paths:
                 continue
             flow, K, paths = fam_paths[fam]
